@@ -35,7 +35,8 @@ class State:
         self.cons = {}    # sid -> (lo, hi)
         self.pc = frozenset()
         self.guard = None
-        self.ctl = frozenset()   # deps of the payload-dependent branch conditions taken in the current function
+        self.ctl = {}            # (frame, switch block) -> deps of that payload-dependent branch (control dependence, scoped
+                                 # to the region between the branch and its post-dominator)
 
     def copy(self):
         s = State()
@@ -46,8 +47,15 @@ class State:
         s.cons = dict(self.cons)
         s.pc = self.pc
         s.guard = self.guard
-        s.ctl = self.ctl
+        s.ctl = dict(self.ctl)
         return s
+
+    def ctl_deps(self, fid=None):
+        d = frozenset()
+        for (f, b), x in self.ctl.items():
+            if fid is None or f == fid:
+                d |= x
+        return d
 
 
 def _assign_sids(v):
@@ -98,6 +106,7 @@ class Interp:
         self._promoted = {}
         self.vn = {}
         self.entry_snap = {}
+        self._cur = None
 
     # ------------------------------------------------------------------ infrastructure
     def cfg(self, body):
@@ -511,6 +520,7 @@ class Interp:
             gj = (a.guard[0], 1 if a.guard[1] else 0)
         s = State()
         s.stack = list(a.stack)
+        cd = a.ctl_deps() | b.ctl_deps() if (a.ctl or b.ctl) else None
         for fid in a.stack:
             la, lb = a.fr[fid], b.fr.get(fid, {})
             out = {}
@@ -522,10 +532,12 @@ class Interp:
                 if va is vb:
                     out[l] = va
                     continue
-                j = self.vjoin(va, vb, gj)
-                if j is not va:
+                j = self.vjoin(va, vb, gj, cd)
+                if j is not va and not (_same_modulo_deps(j, va)):
                     changed = True
                     j = _assign_sids(j)
+                elif j is not va:
+                    j = va
                 out[l] = j
             s.fr[fid] = out
         for c in a.heap:
@@ -534,10 +546,12 @@ class Interp:
                 if va is vb:
                     s.heap[c] = va
                 else:
-                    j = self.vjoin(va, vb, gj)
-                    if j is not va:
+                    j = self.vjoin(va, vb, gj, cd)
+                    if j is not va and not (_same_modulo_deps(j, va)):
                         changed = True
                         j = _assign_sids(j)
+                    elif j is not va:
+                        j = va
                     s.heap[c] = j
             else:
                 changed = True
@@ -562,15 +576,52 @@ class Interp:
         s.guard = None if gj is not None else (a.guard if a.guard == b.guard else None)
         if s.guard != a.guard:
             changed = True
-        s.ctl = a.ctl | b.ctl
-        if s.ctl != a.ctl:
-            changed = True
+        ctl = dict(a.ctl)
+        for k, x in b.ctl.items():
+            if k in ctl:
+                if not (x <= ctl[k]):
+                    ctl[k] = ctl[k] | x
+                    changed = True
+            else:
+                ctl[k] = x
+                changed = True
+        s.ctl = ctl
         return s, changed
 
-    def vjoin(self, va, vb, gj):
+    def vjoin(self, va, vb, gj, cd=None):
         if gj is not None:
             return self.gjoin(va, vb, gj)
+        if cd:
+            return self.join_t(va, vb, cd)
         return join(va, vb)
+
+    def join_t(self, va, vb, cd):
+        """join that records control dependence: a value that differs between the merging paths depends on the
+        conditions of the branches still open at the merge"""
+        if va is vb:
+            return va
+        if isinstance(va, StructV) and isinstance(vb, StructV) and va.adt == vb.adt:
+            f = {}
+            same = True
+            for n, x in va.fields.items():
+                if n in vb.fields:
+                    y = self.join_t(x, vb.fields[n], cd)
+                    f[n] = y
+                    if y is not x:
+                        same = False
+                else:
+                    same = False
+            return va if same and len(f) == len(va.fields) else StructV(va.adt, f)
+        if isinstance(va, TupleV) and isinstance(vb, TupleV) and len(va.items) == len(vb.items):
+            items = [self.join_t(x, y, cd) for x, y in zip(va.items, vb.items)]
+            return va if all(a is b for a, b in zip(items, va.items)) else TupleV(items)
+        if isinstance(va, VecV) and isinstance(vb, VecV) and va.elems is not None and vb.elems is not None and len(va.elems) == len(vb.elems):
+            el = [self.join_t(x, y, cd) for x, y in zip(va.elems, vb.elems)]
+            return va if all(a is b for a, b in zip(el, va.elems)) else VecV(el, elem_ty=va.elem_ty)
+        j = join(va, vb)
+        if j is va and not isinstance(va, (IntV, BoolV, FloatV, EnumV)):
+            return j
+        return taint(j, cd)
 
     def gjoin(self, va, vb, gj):
         """guarded join (if-conversion) for XOR-linear code: va holds when cond==gj[1], vb otherwise"""
@@ -918,8 +969,6 @@ class Interp:
         fid = next(self._frame)
         state.fr[fid] = {}
         state.stack.append(fid)
-        saved_ctl = state.ctl
-        state.ctl = frozenset()
         entry_kb, entry_cons, entry_pc = dict(state.kb), dict(state.cons), state.pc
         self.entry_snap[fid] = (entry_kb, entry_cons, entry_pc)
         for i, a in enumerate(args):
@@ -991,9 +1040,11 @@ class Interp:
         rv = ret_state.fr[fid].get(0)
         if rv is None:
             rv = TupleV(())
-        if ret_state.ctl:
-            rv = taint(rv, ret_state.ctl)
-        ret_state.ctl = saved_ctl
+        cd = ret_state.ctl_deps(fid)
+        if cd:
+            rv = taint(rv, cd)
+        for k in [k for k in ret_state.ctl if k[0] == fid]:
+            del ret_state.ctl[k]
         if not keep_frame:
             del ret_state.fr[fid]
             ret_state.stack.pop()
@@ -1023,6 +1074,13 @@ class Interp:
 
     def exec_block(self, state, fid, body, bb):
         blk = body.blocks[bb]
+        self._cur = (fid, bb)
+        # control dependence ends where the branch is post-dominated
+        if state.ctl:
+            cfg = self.cfgs.get(body.name)
+            for k in [k for k in state.ctl if k[0] == fid and k[1] != bb]:
+                if cfg is not None and cfg.postdominates(bb, k[1]):
+                    del state.ctl[k]
         for s in blk["stmts"]:
             self.steps += 1
             if s["k"] == "assign":
@@ -1102,7 +1160,8 @@ class Interp:
                     if v == d.lo:
                         return [(b, state)]
                 return [(t["otherwise"], state)]
-            state.ctl = state.ctl | d.deps
+            if d.deps and self._cur is not None:
+                state.ctl[self._cur] = state.ctl.get(self._cur, frozenset()) | d.deps
             dvals = d.values()
             for v, b in targets:
                 if v < d.lo or v > d.hi:
@@ -1173,8 +1232,9 @@ class Interp:
     def note_branch(self, state, b, truth):
         """record guard (for if-conversion at the next join) and path-condition atom"""
         state.guard = None
-        if b.val is None:
-            state.ctl = state.ctl | b.deps
+        if b.val is None and b.deps and self._cur is not None:
+            k = self._cur
+            state.ctl[k] = state.ctl.get(k, frozenset()) | b.deps
         if b.bit is not None and b.val is None and b.bit != TBIT and not bit_is_const(b.bit):
             state.guard = (b.bit, bool(truth))
         o = b.origin
@@ -1329,6 +1389,19 @@ class Interp:
             callee = {"path": f.path, "instance": f.path, "local": f.path in self.facts.bodies, "name": f.path.split("::")[-1]}
             return self.call(state, callee, f.path, list(args), None, {"span": None, "args": []})
         return self.unmodelled(state, {}, "call of %s" % getattr(f, "kind", f), args)
+
+
+def _same_modulo_deps(j, va):
+    """j equals va (a re-tainted copy with no new information) - avoids spurious 'changed' at fixpoints"""
+    if type(j) is not type(va):
+        return False
+    if isinstance(j, IntV):
+        return j.lo == va.lo and j.hi == va.hi and j.bits == va.bits and j.aff == va.aff and j.sid == va.sid and j.deps <= va.deps and j.vset == va.vset
+    if isinstance(j, BoolV):
+        return j.val == va.val and j.bit == va.bit and j.origin is va.origin and j.deps <= va.deps
+    if isinstance(j, FloatV):
+        return j.lo == va.lo and j.hi == va.hi and j.term == va.term and j.deps <= va.deps
+    return False
 
 
 def taint(v, deps):
